@@ -21,6 +21,10 @@ def sh(cmd, cwd=None, env=None):
 def main():
     pid, n = sys.argv[1], sys.argv[2]
     src = "/tmp/wt-%s-out" % pid
+    tag = "m"
+    if "--round2" in sys.argv:
+        src = "/tmp/w2-%s-out" % pid
+        tag = "r2m"
     patch = os.path.join(src, "m%s.diff" % n)
     demo = os.path.join(src, "m%s_demo.rs" % n)
     if "--demo" in sys.argv:
@@ -55,17 +59,17 @@ def main():
         print("FAIL: the demonstration does not discriminate")
         print(with_patch.stdout[-800:] if with_patch.returncode == 0 else without.stdout[-1500:])
         return 1
-    d = os.path.join("/verif/seeded", "%s-m%s" % (pid, n))
+    d = os.path.join("/verif/seeded", "%s-%s%s" % (pid, tag, n))
     os.makedirs(d, exist_ok=True)
     shutil.copy(patch, os.path.join(d, "patch.diff"))
     shutil.copy(demo, os.path.join(d, "demo.rs"))
     needs = sys.argv[sys.argv.index("--needs") + 1] if "--needs" in sys.argv else ""
     what = sys.argv[sys.argv.index("--what") + 1] if "--what" in sys.argv else ""
-    meta = {"property": pid, "origin": "independent sub-agent given only the property text and a scratch worktree",
+    meta = {"property": pid, "origin": "independent sub-agent given only the property text and a scratch worktree" + ("; round 2: additionally told, in generic terms, that the checker is a corpus + random differential tester with laws, and asked for changes such a tester could miss" if tag == "r2m" else ""),
             "what": what, "needs_to_manifest": needs,
             "confirmed": {"baseline_tests_with_patch": "%d passed (cargo test --workspace --no-fail-fast --offline)" % passed,
                           "demo_with_patch": (wl[-1] if wl else "failed to build/run") , "demo_without_patch": ol[-1] if ol else "",
-                          "how": "python3 pylane/verify_mutant.py %s %s (private worktree /tmp/vfy; demo copied to tests/ and run with cargo test --test)" % (pid, n)},
+                          "how": "python3 pylane/verify_mutant.py %s %s%s (private worktree /tmp/vfy; demo copied to tests/ and run with cargo test --test)" % (pid, n, " --round2" if tag == "r2m" else "")},
             "also_run": []}
     if "--also" in sys.argv:
         meta["also_run"] = sys.argv[sys.argv.index("--also") + 1].split(",")
